@@ -2,7 +2,7 @@
 
 Inductive step on the symbolic repository: if inclusion holds on the remote
 before a job, it holds after every observable remote update of the job."""
-from . import gitprops
+from . import gitprops, histcheck
 
 
 def check(rep):
@@ -13,6 +13,10 @@ def check(rep):
     rep.outside_claim += ['histories as such (covered by induction from an arbitrary state '
                           'satisfying the invariant)', 'file contents']
     gitprops.run(rep, 'C01')
+    histcheck.check(rep, 'C01')
 
 
-replay = gitprops.replay
+def replay(data):
+    if 'history' in data:
+        return histcheck.replay('C01', data)
+    return gitprops.replay(data)
